@@ -28,9 +28,11 @@ for p in props:
 man = dict(
     version=1,
     setup_cmd="./tools/setup.sh",
-    hooks=dict(guard="PYBROPS_VERIF", enable="none needed: contracts are sidecar files; no source hook exists in /repo",
+    hooks=dict(guard="PYBROPS_VERIF", enable="none needed: contracts are sidecar files; no source hook exists in /repo and nothing reads "
+                                            "the guard. source_commits lists the unguarded 'fix:' commits (repairs of genuine defects, "
+                                            "recorded in known_findings.jsonl); they change existing lines, hence add_only is false",
                baseline_off_cmd="cd /repo && /venv/bin/python -m pytest -ra -q -p no:cacheprovider --timeout=900 --continue-on-collection-errors",
-               source_commits=SOURCE_COMMITS, add_only=True),
+               source_commits=SOURCE_COMMITS, add_only=False),
     engines=[dict(name="pyvc", path="pyvc/", serves_properties=sorted(CLAIMED),
                   kind_free_text="contract-based deductive verifier for the real Python code: sidecar contracts, VCs generated "
                                  "from /repo's current source (AST loop cutting + CPython proxy execution), z3/cvc5 back ends, "
